@@ -59,10 +59,14 @@ class T(object):
 
 
 def _func(tree, name):
-    for n in tree.body:
-        if isinstance(n, ast.FunctionDef) and n.name == name:
-            return n
-    raise ValueError('function %s not found' % name)
+    found = [n for n in ast.walk(tree) if isinstance(n, (ast.FunctionDef, ast.AsyncFunctionDef)) and n.name == name]
+    top = [n for n in tree.body if isinstance(n, ast.FunctionDef) and n.name == name]
+    if len(found) != 1 or len(top) != 1:
+        # Python runs the LAST definition of a name; a second one (later in the file, under an `if`, in a class) would make
+        # the translated text differ from the executed one
+        raise ValueError('function %s: expected exactly one definition at module level, found %d (%d anywhere)'
+                         % (name, len(top), len(found)))
+    return top[0]
 
 
 _MAIN_STMTS = {
@@ -86,14 +90,23 @@ def _main_shape(tree, what):
         if st not in _MAIN_STMTS:
             raise ValueError('%s main: statement outside the translated fragment: %s' % (what, st))
         out.append(_MAIN_STMTS[st])
-    # nothing before `error = 0` may touch the options or the error count
+    # nothing before `error = 0` may touch the options, the metamodel or the error count, except the two bindings that
+    # create them (once each)
+    allowed = []
     for st in f.body[:srcs.index('error = 0')]:
         for n in ast.walk(st):
             if isinstance(n, (ast.Assign, ast.AugAssign, ast.Delete)):
                 tg = n.targets if isinstance(n, (ast.Assign, ast.Delete)) else [n.target]
                 for t in tg:
-                    if 'opts.' in ast.unparse(t) or ast.unparse(t) == 'error':
+                    tx = ast.unparse(t)
+                    if ast.unparse(n) in ('m = loader.build_metamodel()', 'opts, args = parser.parse_args(args)'):
+                        allowed.append(ast.unparse(n))
+                        continue
+                    if 'opts.' in tx or tx in ('error', 'opts', 'args', 'm', 'xtuml', '(opts, args)') or tx.startswith('xtuml.'):
                         raise ValueError('%s main: options / error count modified before the checks: %s' % (what, ast.unparse(n)))
+    if sorted(allowed) != sorted(['opts, args = parser.parse_args(args)', 'm = loader.build_metamodel()']):
+        raise ValueError('%s main: expected one `(opts, args) = parser.parse_args(args)` and one `m = loader.build_metamodel()`, '
+                         'found %s' % (what, allowed))
     return '[' + ', '.join(out) + ']'
 
 
